@@ -251,6 +251,64 @@ def check_multi_pipe(rec, rng, quick):
                 rec.check(step.shape == ref.shape and np.array_equal(step.to_ndarray(), ref.to_ndarray()), f'split_legs(one by one, {fill}):roundtrip', '', inp)
 
 
+def check_nested_pipes(rec, rng, quick):
+    """pipes of pipes: conjugation flips every level (so that conjugate legs stay contractible after splitting), splitting level by
+    level restores the legs, a nested pipe and its conjugate contract"""
+    import tenpy.linalg.np_conserved as npc
+    from tenpy.linalg.charges import LegPipe
+    from . import gen
+
+    def walk(p, q, path, out):
+        if q.qconj != -p.qconj:
+            out.append(f'{path}: qconj {p.qconj} -> {q.qconj}')
+        if not np.array_equal(p.to_qflat(), q.to_qflat()) if hasattr(p, 'to_qflat') else False:
+            out.append(f'{path}: charge values changed')
+        if isinstance(p, LegPipe) != isinstance(q, LegPipe):
+            out.append(f'{path}: pipe-ness changed')
+        elif isinstance(p, LegPipe):
+            for i, (a_, b_) in enumerate(zip(p.legs, q.legs)):
+                walk(a_, b_, f'{path}.legs[{i}]', out)
+    for ci, chinfo in enumerate(gen.chinfos()[:5]):
+        for k in range(4 if quick else 40):
+            legs = [gen.random_leg(rng, chinfo, max_size=2) for _ in range(4)]
+            labels = ['a', 'b', 'c', 'd']
+            a = gen.random_array(rng, legs, [float, complex][k % 2], labels=labels)
+            qc1, qc2 = int(rng.choice([1, -1])), int(rng.choice([1, -1]))
+            inp = {'mod': chinfo.mod.tolist(), 'k': k, 'qconj': [qc1, qc2]}
+            rec.begin(f'C06 nested pipes {inp}')
+            rec.case(('nested-pipes', ci, k), True)
+            ok, c2 = rec.guarded('nested-pipes:combine:exception',
+                                 lambda: a.combine_legs(['a', 'b'], qconj=qc1).combine_legs(['(a.b)', 'c'], qconj=qc2), inp)
+            if not ok:
+                continue
+            bad = gen.sanity(c2)
+            rec.check(not bad, 'nested-pipes:combine:invariant', bad[0] if bad else '', inp)
+            # LegPipe.conj on the nested pipe itself
+            pipe = c2.legs[c2.get_leg_index('((a.b).c)')]
+            diffs = []
+            walk(pipe, pipe.conj(), 'pipe', diffs)
+            rec.check(not diffs, 'LegPipe.conj(nested):every-level-flipped', '; '.join(diffs[:4]), inp)
+            ok, cc = rec.guarded('nested-pipes:conj:exception', lambda: c2.conj(), inp)
+            if not ok:
+                continue
+            ok, back = rec.guarded('nested-pipes:conj+split:exception', lambda: cc.split_legs().split_legs(), inp)
+            if ok:
+                ref = a.conj().transpose(['a*', 'b*', 'c*', 'd*'])
+                back = back.transpose(['a*', 'b*', 'c*', 'd*']) if sorted(back.get_leg_labels()) == sorted(ref.get_leg_labels()) else back
+                good = back.shape == ref.shape and not gen.sanity(back) and np.array_equal(back.to_ndarray(), ref.to_ndarray())
+                if good:
+                    for lb, la in zip(back.legs, ref.legs):
+                        try:
+                            lb.test_equal(la)
+                        except ValueError:
+                            good = False
+                rec.check(good, 'nested-pipes:conj+split:legs-of-the-conjugate', f'sanity {gen.sanity(back)[:1]}', inp)
+            ok, n2 = rec.guarded('nested-pipes:contract-with-conjugate:exception',
+                                 lambda: npc.tensordot(c2, cc, axes=[['((a.b).c)', 'd'], ['((a*.b*).c*)', 'd*']]), inp)
+            if ok:
+                rec.check(abs(n2 - np.sum(np.abs(a.to_ndarray()) ** 2)) < 1e-9 * (1 + abs(n2)), 'nested-pipes:contract-with-conjugate:value', str(n2), inp)
+
+
 def run(rec):
     warnings.simplefilter('ignore')
     rng = np.random.default_rng(rec.seed + 6)
@@ -301,5 +359,6 @@ def run(rec):
             check_pipe(rec, sel, qconj, sort, bunch)
             rec.case(('pipeN', mod, k), True)
     check_multi_pipe(rec, rng, quick)
+    check_nested_pipes(rec, rng, quick)
     if quick:
         rec.exhaustive = False
